@@ -7,12 +7,15 @@ import (
 	"fmt"
 )
 
+// 输入不满足断言时的错误, 由 ParseFile 转为普通错误返回
+type assertError string
+
 func assert(ok bool, message ...interface{}) {
 	if !ok {
 		if len(message) != 0 {
-			panic(fmt.Sprint(append([]interface{}{"assert failed:"}, message...)...))
+			panic(assertError(fmt.Sprint(append([]interface{}{"assert failed:"}, message...)...)))
 		} else {
-			panic("assert failed")
+			panic(assertError("assert failed"))
 		}
 	}
 }
